@@ -31,6 +31,7 @@ META = {
     "assumptions": ["the driver drivers/inst.cpp instantiates the documented Render entry points",
                     "destructors of local containers release only memory of the call (C16's ownership rules)"],
 }
+META["explanation"] += " " + '(X-copykind, shared with C02) a copied tag cache renders like its source. (ZB-past, shared with C10) the formatter does not touch what the stream held before the number.'
 
 FORBIDDEN_WHY = {"I": "the caller's value, tag cache or template text", "U": "memory reached through a non-owning pointer (may be the caller's value)",
                  "K": "a string literal"}
@@ -246,6 +247,6 @@ def run(ctx):
         ok = len(render_calls) == 1 and tr.nodes[render_calls[0]].get("fd") == entry.id
         r_pc.ob(tr.sig + tag, "renders through TemplateCore::Render(const Array<TagBit> &, ...)", ok and entry.params[0]["t"].startswith("const "),
                 "the cache parameter of the renderer is `%s`" % entry.params[0]["t"], tr.loc(render_calls[0]) if render_calls else "")
-    from rules.common import rule_copy_kind
-    rules += [r_in, r_st, r_ap, r_cx, r_pc, rule_copy_kind(ctx, ctx.pattern())]
+    from rules.common import rule_copy_kind, rule_stream_past
+    rules += [r_in, r_st, r_ap, r_cx, r_pc, rule_copy_kind(ctx, ctx.pattern()), rule_stream_past(ctx, ctx.pattern())]
     return rules
